@@ -10,7 +10,7 @@ NOTES = {
  "C16-B": "first run: missed by C16 (only SortedBuffer was tied); caught after `searchrun` drives the real Trees::search_best",
  "C17-A": "first run: missed; caught after refusal cases that share the header page were added",
  "C18-B": "data race (plain read of counters that other threads CAS): outside the claimed, address-range half of C18; no executable Gallina model exhibits it (Miri/TSan would)",
- "C03-C": "second round: sync rollback with the wrong amount; C04 reports a schedule (accounting), C03 after the post phase frees every held block",
+ "C03-C": "second round: sync rollback with the wrong amount; C03 reports schedule u-sync-demote 1,1,1,1,1 (the post phase frees every held block: Tree::put assert), C04/C10 report accounting schedules",
  "C04-C": "second round (concurrency-only changes in the upper layer): drain's atomic swap split into load + store",
  "C15-C": "second round: first run reported a step mismatch only; caught with a schedule after the offline-vs-reserve scenarios were added",
  "C15-D": "second round: first run reported a step mismatch only; caught with a schedule after the set_start-vs-drain-offline scenario was added",
